@@ -5,7 +5,7 @@ from common import from_replay, to_replay  # noqa: F401
 
 PID = "C02"
 COQ_MODULE = "Prop_C02"
-THEOREMS = ["C02_guard_covers", "C02_acquired_is_covered", "C02_position_routes", "C02_closure_under_hold"]
+THEOREMS = ["C02_guard_covers", "C02_acquired_is_covered", "C02_position_routes", "C02_closure_under_hold", "C02_guards_exclusive"]
 CASE_MODULES = ["Conc", "BMonitors"]
 CHECK_WITHOUT_PROOF = True
 TRUSTED = common.TRUSTED_COMMON + ["deterministic scheduler of the harness: real OS threads, one runnable at a time, "
